@@ -144,7 +144,24 @@ def _min(ip, fv, args, kwargs, pure):
     if len(args) == 2 and isintlike(args[0]) and isintlike(args[1]):
         a, b = I(args[0]), I(args[1])
         return mkint(z3.If(a <= b, a, b))
+    r = _minmax_bytes(ip, args, pure, False)
+    if r is not None:
+        return r
     raise Unsupported("min form")
+
+
+def _minmax_bytes(ip, args, pure, want_max):
+    """min / max of two byte strings (lexicographic, `blt`); Python returns the FIRST of two equal arguments"""
+    v = args[0] if len(args) == 1 and isinstance(args[0], (list, tuple)) else args
+    if len(v) != 2 or not all(isbyteslike(x) for x in v):
+        return None
+    a, b = v
+    if isinstance(a, bytes) and isinstance(b, bytes):
+        return max(a, b) if want_max else min(a, b)
+    swap = sym.BLT(Bt(a), Bt(b)) if want_max else sym.BLT(Bt(b), Bt(a))   # max: b if a < b ; min: b if b < a
+    if pure:
+        return SBytes(z3.If(swap, Bt(b), Bt(a)))
+    return b if ip.ctx.branch(swap, "minmax") else a
 
 
 @model("max")
@@ -152,6 +169,9 @@ def _max(ip, fv, args, kwargs, pure):
     if len(args) == 2 and isintlike(args[0]) and isintlike(args[1]):
         a, b = I(args[0]), I(args[1])
         return mkint(z3.If(a >= b, a, b))
+    r = _minmax_bytes(ip, args, pure, True)
+    if r is not None:
+        return r
     raise Unsupported("max form")
 
 
